@@ -34,9 +34,14 @@ def samiWriterOps : List (String × Handler) := [
   ("sami.plan", fun a => match a with
     | [ls] => encList encSync (SamiW.plan (if ls = "[]" then [] else (ls.splitOn "|").map decTimes))
     | _ => "bad-args"),
-  -- the stylesheet of a caption set without styles and layouts: one class per language
+  -- the language rules of the stylesheet: languages, which of them label paragraphs with their own code, and what the set's
+  -- own styles gave
   ("sami.stylesheet", fun a => match a with
-    | [ls] => encStr (SamiW.stylesheet (fun _ => []) (decStrs ls))
+    | [ls, lab, sheet0] =>
+      let langs := decStrs ls
+      let flags := (lab.splitOn ",").map (· == "1")
+      let labels := fun (l : Str) => match langs.zip flags |>.find? (fun p => p.1 == l) with | some p => p.2 | none => false
+      encStr (SamiW.stylesheet (fun _ => []) labels (decStr sheet0) langs)
     | _ => "bad-args")
 ]
 end PcVerif.Ops
